@@ -3,7 +3,7 @@
    Selective and non-selective strategies; join/try_join (slice and tuple), merge, zip, both groups. *)
 From Coq Require Import List Arith Bool.
 Import ListNotations.
-Require Import ScanFull InstsFull ObligJoin ObligMZ ObligGroups NonSel.
+Require Import ScanFull InstsFull Pass ObligJoin ObligMZ ObligGroups GhostTrace NonSel PassPolls.
 
 Theorem C20_join tuple tryj scs ops i : let w := join_world true tryj tuple scs ops in
   g_retpend _ w = true -> g_quiet _ w = true -> i < N _ j_slots w -> aw _ j_awaited w i = true -> polled _ w i = true.
@@ -31,6 +31,36 @@ Theorem C20_group_nonsel stream cap0 ops i : let w := group_world false stream c
 Proof. exact (group_C20_nonsel stream cap0 ops i). Qed.
 Print Assumptions C20_join. Print Assumptions C20_merge. Print Assumptions C20_zip. Print Assumptions C20_group.
 Print Assumptions C20_join_nonsel. Print Assumptions C20_merge_nonsel. Print Assumptions C20_zip_nonsel. Print Assumptions C20_group_nonsel.
+
+
+
+(* ---- selective strategy, bookkeeping read off the trace (see Properties/C01.v, C16.v): after a Pending return with no insertion since, every
+        awaited slot has a child poll in the trace *)
+Theorem C20_join_trace tuple tryj scs ops i : let w := join_world true tryj tuple scs ops in let g := gfold (ginit (length scs)) (tr _ w) in
+  t_ret g = true -> t_quiet g = true -> i < N _ j_slots w -> aw _ j_awaited w i = true -> t_polled g i = true.
+Proof. exact (join_C20_trace tuple tryj scs ops i). Qed.
+Theorem C20_merge_trace scs ops i : let w := merge_world true scs ops in let g := gfold (ginit (length scs)) (tr _ w) in
+  t_ret g = true -> t_quiet g = true -> i < N _ m_n w -> aw _ m_awaited w i = true -> t_polled g i = true.
+Proof. exact (merge_C20_trace scs ops i). Qed.
+Theorem C20_zip_trace scs ops i : let w := zip_world true scs ops in let g := gfold (ginit (length scs)) (tr _ w) in
+  t_ret g = true -> t_quiet g = true -> i < N _ z_n w -> aw _ z_awaited w i = true -> t_polled g i = true.
+Proof. exact (zip_C20_trace scs ops i). Qed.
+Theorem C20_group_trace stream cap0 ops i : let w := group_world true stream cap0 ops in let g := gfold (ginit 0) (tr _ w) in
+  t_ret g = true -> t_quiet g = true -> i < N _ g_slots w -> aw _ g_awaited w i = true -> t_polled g i = true.
+Proof. exact (group_C20_trace stream cap0 ops i). Qed.
+Print Assumptions C20_join_trace. Print Assumptions C20_merge_trace. Print Assumptions C20_zip_trace. Print Assumptions C20_group_trace.
+
+(* race and race_ok hand the caller's waker straight to their children.  One poll, from ANY state: if it returns Pending (its trace segment is
+   EB pid :: u ++ [EEndP]) then it has polled, in that very poll and with the caller's waker pid, every child (race) resp. every child that has not
+   failed (race_ok, all three algorithms).  Hence after a Pending return every owned child has been polled, a never-completing child never keeps a
+   sibling from being polled, and each child's most recent waker is the newest parent waker (C01). *)
+Theorem C20_race_polls_all (w: W rst) pid np : forall u, tr _ (race_poll w pid np) = tr _ w ++ EB pid :: u ++ [EEndP] ->
+  forall i, i < r_n (cs _ w) -> In (EC i (WPar pid)) u.
+Proof. exact (race_pending_polls_all w pid np). Qed.
+Theorem C20_race_ok_polls_all (w: W kst) pid np : forall u, tr _ (rok_poll w pid np) = tr _ w ++ EB pid :: u ++ [EEndP] ->
+  forall i, i < k_n (cs _ w) -> nth i (k_errs (cs _ (rok_poll w pid np))) None = None -> In (EC i (WPar pid)) u.
+Proof. exact (race_ok_pending_polls_all w pid np). Qed.
+Print Assumptions C20_race_polls_all. Print Assumptions C20_race_ok_polls_all.
 
 Example C20_witness :
   let scs := [[]; [{| fires := []; answer := APend |}]; []] in
